@@ -13,6 +13,7 @@ structure State where
   down : List Nat := []     -- nodes that refuse connections (crashed but still selected)
   hangNext : List Nat := [] -- nodes whose next storage mutation performs the write and never returns
   stuck : List Nat := []    -- nodes inside a hung handler
+  fetchFail : List Nat := [] -- nodes whose storage refuses the next document read (a repairing peer's fetch fails)
   dists : List (Nat × Replication.Dist (Nat × Nat × List Nat)) := []   -- the task distributor of node i (members: (member id, node index))
   pollers : List (Nat × Replication.Poller) := []     -- the replication cycle service of node j, when started
   pending : Option (Nat × Pending) := none
@@ -104,6 +105,19 @@ def repairAll (st : State) (j i : Nat) (rf : Bool) : State × String :=
   let others := (res.filter (·.1 ≠ st.cur)).map (fun r => (r.1, r.2.1))
   ({ st with c := cNew, others := others },
     if failed then "err" else if synced.isEmpty then "skipped" else "synced " ++ ",".intercalate synced)
+
+/-- The concurrent production path against a peer that may refuse the next document fetch (`failfetch`; generated for
+single-keyspace cases only): `Cluster.repairFetchFail`; the refusal is used up by the first exchange that fetches. -/
+def repairMaybeFetchFail (st : State) (j i : Nat) : State × String :=
+  if st.fetchFail.contains i && st.others.isEmpty then
+    let used := repairFetches st.c j i
+    let (c1, out) := repairFetchFail st.c j i
+    ({ st with c := c1, fetchFail := if used then st.fetchFail.filter (· ≠ i) else st.fetchFail },
+      match out with
+      | .skipped => "skipped"
+      | .failed => "err"
+      | .synced m r => s!"synced {st.cur}:m{m}:r{r}")
+  else repairAll st j i true
 
 /-- A write through the replicas the level selected: local handler, one request per replica
 (`Cluster.replicateAll`), `handle_consistency_distribution` (`Cluster.distribute`). -/
@@ -223,14 +237,22 @@ def step (st : State) (toks : List String) : State × String :=
     match j.toNat? with
     | some j =>
       let peers := (List.range st.nnodes).filter (· ≠ j)
-      (peers.foldl (fun acc i => (repairAll acc j i true).1) st, "ok")
+      (peers.foldl (fun acc i => (repairMaybeFetchFail acc j i).1) st, "ok")
     | none => (st, "bad-op")
   | ["repairc", j, i] =>
     -- the concurrent production path: both halves run; under the model's atomic handlers the result
     -- equals one of the two sequential orders; removals are dispatched first
     match j.toNat?, i.toNat? with
-    | some j, some i => repairAll st j i true
+    | some j, some i => repairMaybeFetchFail st j i
     | _, _ => (st, "bad-op")
+  | ["failfetch", i] =>
+    match i.toNat? with
+    | some i => ({ st with fetchFail := i :: st.fetchFail }, "ok")
+    | none => (st, "bad-op")
+  | ["clearfetch", i] =>
+    match i.toNat? with
+    | some i => ({ st with fetchFail := st.fetchFail.filter (· ≠ i) }, "ok")
+    | none => (st, "bad-op")
   | ["purge", j] =>
     match j.toNat? with
     | some j => ({ st with c := purge c j }, "ok")
